@@ -211,9 +211,9 @@ class Tree:
         for i in getattr(u, "absinterfaces", []):
             self.interface(i, sub, "absinterface")
         for n, e in enumerate(getattr(u, "enums", [])):
-            es = self.add(sub, "enum", f"#{n}")
+            es = self.add(sub, "enum", f"#{n}", _obj=e)
             for v in e.variables:
-                self.add(es, "enumerator", v.name, initial=nb(v.initial))
+                self.add(es, "enumerator", v.name, _obj=v, initial=nb(v.initial))
         for c in getattr(u, "common", []):
             names = []
             for v in c.variables:
@@ -223,9 +223,9 @@ class Tree:
                         self.var(v, sub, in_common=(c.name or "").lower())
                 else:
                     names.append([str(v).lower(), None])
-            self.add(sub, "common", c.name, vars=names)
+            self.add(sub, "common", c.name, _obj=c, vars=names)
         for nl in getattr(u, "namelists", []):
-            self.add(sub, "namelist", nl.name, vars=[_name(v) for v in nl.variables])
+            self.add(sub, "namelist", nl.name, _obj=nl, vars=[_name(v) for v in nl.variables])
         seen = set()
         for coll in ("subroutines", "functions", "modprocedures", "modsubroutines", "modfunctions"):
             for p in getattr(u, coll, []):
